@@ -447,10 +447,25 @@ def extract_struct(repo, rel, name, keep=None, drop=None, info=None, noderive=No
     return text
 
 
-def extract_enum(repo, rel, name, info=None, noderive=None):
+FNPTR_TY = re.compile(r'\bfn\(([^()]*)\)\s*->\s*&\s*(\[u8\]|[A-Za-z_][A-Za-z0-9_]*)')
+
+
+def fnptr_handle_name(m):
+    """R16: name of the opaque handle type standing for the fn-pointer type matched by FNPTR_TY."""
+    args = [re.sub(r'[^A-Za-z0-9]', '', a) for a in m.group(1).split(',')]
+    ret = 'bytes' if m.group(2) == '[u8]' else m.group(2)
+    return 'FnP_' + '_'.join(args) + '__' + ret
+
+
+def extract_enum(repo, rel, name, info=None, noderive=None, fnptr_opaque=False):
     raw, src = repo.src(rel)
     m, o, e = find_item(src, 'enum', name)
     body = strip_attrs_keep_default(src[o + 1:e])
+    n_fnptr = 0
+    if fnptr_opaque:
+        # R16: Verus has no fn-pointer types. A field of type `fn(A..) -> &R` is emitted as the opaque handle type FnP_<A..>__<R>
+        # (declared by the unit); calls through such a value are listed //@@rewrite lines of the functions that make them.
+        body, n_fnptr = FNPTR_TY.subn(fnptr_handle_name, body)
     header = src[m.end() - len(name):o].strip()
     text = 'pub enum ' + header + ' {' + fix_vis(body) + '}\n'
     text = squeeze_blank(text)
@@ -464,6 +479,8 @@ def extract_enum(repo, rel, name, info=None, noderive=None):
     if info is not None:
         info.append({'kind': 'enum', 'name': name, 'file': rel, 'lines': [line_of(src, m.start()), line_of(src, e)],
                      'sha256': hashlib.sha256(src[m.start():e + 1].encode()).hexdigest()})
+        if n_fnptr:
+            info[-1]['rules'] = {'R16_fnptr_fields_as_opaque_handles': n_fnptr}
     return text
 
 
@@ -1149,8 +1166,8 @@ def process_template(template_path, repo_root, include_dirs=(), restrict=()):
             continue
         if s.startswith('//@enum '):
             tk = s.split()
-            kv, _ = parse_kv(tk[3:])
-            emit(extract_enum(repo, tk[1], tk[2], items, kv['noderive'].split(',') if 'noderive' in kv else None))
+            kv, efl = parse_kv(tk[3:])
+            emit(extract_enum(repo, tk[1], tk[2], items, kv['noderive'].split(',') if 'noderive' in kv else None, fnptr_opaque=('fnptr_opaque' in efl)))
             i += 1
             continue
         if s.startswith('//@macro '):
